@@ -65,3 +65,17 @@ func specSenderNoTakeover(isClient bool, o *compressionOptions) bool {
 	}
 	return o.serverNoContextTakeover
 }
+
+// SetReadLimit documentation: "sets the max number of bytes to read for a single
+// message ... Set to -1 to disable." The limit reader must hand out limit bytes and
+// fail on the next one, so it is armed with limit+1 (one byte of look-ahead); a
+// negative value disables the limit.
+func specArmedLimit(n int64) int64 {
+	if n >= 0 {
+		return n + 1
+	}
+	return n
+}
+
+// The documented default read limit.
+const specDefaultReadLimit = 32768
